@@ -32,12 +32,14 @@ RegistryFails(i, r) ==
     \o Chk(Want, i, "C32_NoUseAfterUnregister",
            C32_NoUseAfterUnregister(r.unreg.ticket >= 0, UsedAfter(r.invs, r.unreg.ticket)))
     \o Chk(Want, i, "C32_NoPanic", C32_NoPanic(Len(r.panics)))
+    \* registration, every Message/Prompt and the unregistration came back (10 s watchdog in the driver)
+    \o Chk(Want, i, "C32_CallsReturn", ~r.hung \/ r.elapsed < 5000000)
 
 ModeFails(i, r) == Chk(Want, i, "C32_EchoIffConfirmation", C32_EchoIffConfirmation(r.prompt, r.mode))
 
 RecFails(i, r) ==
   IF ~Has(r, "ev") THEN <<Fail(i, "C32_TraceAccepted")>>
-  ELSE IF r.ev = "RegistryCase" /\ Has(r, "invs") /\ Has(r, "unreg") /\ Has(r, "panics") THEN RegistryFails(i, r)
+  ELSE IF r.ev = "RegistryCase" /\ Has(r, "invs") /\ Has(r, "unreg") /\ Has(r, "panics") /\ Has(r, "hung") /\ Has(r, "elapsed") THEN RegistryFails(i, r)
   ELSE IF r.ev = "Mode" /\ Has(r, "prompt") /\ Has(r, "mode") THEN ModeFails(i, r)
   ELSE <<Fail(i, "C32_TraceAccepted")>>
 
